@@ -35,18 +35,67 @@ def decOptStr : PyVal → Option (Option Str)
   | .str s => some (some s.toList)
   | _ => none
 
+/-- the column, its type code, and what the type code resolves back to -/
+def describeOne (c : Res) : List PyVal :=
+  match c with
+  | .error _ => [encRes c, .none, .none]
+  | .ok d =>
+    match typeCodeP d with
+    | none => [encRes c, .none, .none]
+    | some code => [encRes c, str code, encRes (fromName code)]
+
+def decStrList : List PyVal → Option (List Str)
+  | [] => some []
+  | .str s :: rest => (decStrList rest).map (s.toList :: ·)
+  | _ => none
+
+/-- [name, aliases, type, length, precision, scale, element type] -/
+def decCol : PyVal → Option Col
+  | .list [.str n, .list al, ty, len, p, q, e] => do
+    pure { name := n.toList, aliases := ← decStrList al,
+           desc := { ty := ← decTy ty, length := ← decOptNat len, precision := ← decOptNat p,
+                     scale := ← decOptNat q, elem := ← decOptStr e } }
+  | _ => none
+
+/-- one row of the character table the harness reads off the interpreter under test:
+[char, char.upper(), matches \d, matches \s, matches \w, unicodedata.decimal(char)] -/
+structure CharRow where
+  c : Char
+  up : Str
+  d : Bool
+  s : Bool
+  w : Bool
+  val : Nat
+
+def decRow : PyVal → Option CharRow
+  | .list [.str c, .str u, .bool d, .bool s, .bool w, .int v] =>
+    match c.toList with
+    | [ch] => if v ≥ 0 then some { c := ch, up := u.toList, d := d, s := s, w := w, val := v.toNat } else none
+    | _ => none
+  | _ => none
+
+/-- the `Chars` (Unicode behaviour of `str.upper`, `\d`, `\s`, `\w`, `int`) given by a table; a character
+without a row is its own upper case and in no class. -/
+def tableChars (rows : List CharRow) : Chars :=
+  let find := fun (c : Char) => rows.find? (fun r => r.c == c)
+  { upper := fun t => t.flatMap (fun c => match find c with | some r => r.up | none => [c]),
+    isD := fun c => match find c with | some r => r.d | none => false,
+    isS := fun c => match find c with | some r => r.s | none => false,
+    isW := fun c => match find c with | some r => r.w | none => false,
+    toInt := fun ds =>
+      if ds = [] ∨ (intMaxStrDigits ≠ 0 ∧ intMaxStrDigits < ds.length) then .error .valueError
+      else .ok (ds.foldl (fun acc c => acc * 10 + (match find c with | some r => r.val | none => 0)) 0) }
+
 def handle (op : String) (args : List PyVal) : Option (List PyVal) :=
   match op, args with
   | "from_name", [.str s] => some [encRes (fromName s.toList)]
+  | "from_name_u", [.str s, .list rows] => do
+    -- any Python str: the Unicode tables come from the interpreter under test
+    let rs ← rows.mapM decRow
+    pure [encRes (fromNameU (tableChars rs) s.toList)]
   | "column", [.str s] =>
     -- FlatColumn(type=s): the column, its type code, and what the type code resolves back to
-    let c := declare s.toList
-    match c with
-    | .error _ => some [encRes c, .none, .none]
-    | .ok d =>
-      match typeCode d with
-      | none => some [encRes c, .none, .none]
-      | some code => some [encRes c, str code, encRes (fromName code)]
+    some (describeOne (declare s.toList))
   | "parse", [.str s] =>
     -- `_parse_type` on already upper-cased text
     match parseType s.toList with
@@ -61,9 +110,25 @@ def handle (op : String) (args : List PyVal) : Option (List PyVal) :=
     -- the type code `description` reports for a column with these five attributes, and what it resolves to
     let d : Desc := { ty := ← decTy ty, length := ← decOptNat len, precision := ← decOptNat p,
                       scale := ← decOptNat q, elem := ← decOptStr e }
-    match typeCode d with
+    match typeCodeP d with
     | none => pure [.none, .none]
     | some code => pure [str code, encRes (fromName code)]
+  | "column_x", [.str s, e, p, q, len] => do
+    -- FlatColumn(type=s, element_type=e, precision=p, scale=q, length=len)
+    let x : Explicit := { elem := ← decOptStr e, precision := ← decOptNat p, scale := ← decOptNat q,
+                          length := ← decOptNat len }
+    pure (describeOne (declareWith s.toList x))
+  | "enum", [.str m, e, p, q, len] => do
+    -- FlatColumn(type=OrsoTypes.<m>, element_type=e, precision=p, scale=q, length=len)
+    let x : Explicit := { elem := ← decOptStr e, precision := ← decOptNat p, scale := ← decOptNat q,
+                          length := ← decOptNat len }
+    pure (describeOne (.ok (declareEnum m.toList x)))
+  | "describe", [.list cols] => do
+    -- DataFrame(schema=RelationSchema(columns=cols)).description: [name, code, precision, scale] per column
+    let cs ← cols.mapM decCol
+    match describe cs with
+    | none => pure [.none]
+    | some es => pure [.list (es.map fun e => .list [str e.name, str e.code, optNat e.precision, optNat e.scale])]
   | "tables", [] =>
     some [.list (baseTypes.map str), .list (scalarTypes.map str), .list (memberNames.map str), .bool regexPinned]
   | _, _ => none
